@@ -159,6 +159,67 @@ def pool_families():
     return out
 
 
+def drop_families(pools=(0, 1)):
+    out = []
+    for p in pools:
+        out.append(make('D_DROP_p%d' % p, 1, p, 0, [D(1), DROP(1)]))
+        out.append(make('DD_DROP_S_p%d' % p, 2, p, 0, [D(1), D(1), DROP(1)], [S(2)]))
+        out.append(make('FDdet_DROP_Fire_p%d' % p, 1, p, 1, [FD(1, aw=[1], then='detach'), DROP(1)], [FIRE(1)]))
+    for p in (1, 2):
+        out.append(make('DROPfromjob_p%d' % p, 2, p, 0, [D(1), D(2, body=[DROP(1)])], [S(2)]))
+        out.append(make('FDdet_D_DROP_Fire_p%d' % p, 1, p, 1, [FD(1, aw=[1], then='detach'), D(1), DROP(1)], [FIRE(1)]))
+    return out
+
+
+def fsync_families(pools=(0, 1, 2)):
+    out = []
+    for p in pools:
+        out.append(make('FSaw_p%d' % p, 1, p, 0, [FS(1, then='await')]))
+        out.append(make('FSaw_g_Fire_p%d' % p, 1, p, 1, [FS(1, aw=[1], then='await')], [FIRE(1)]))
+    for p in (1, 2):
+        out.append(make('FSaw_g_D_Fire_p%d' % p, 1, p, 1, [FS(1, aw=[1], then='await'), D(1)], [FIRE(1)]))
+        out.append(make('D_FSdrop_S_p%d' % p, 1, p, 0, [D(1), FS(1, then='drop'), S(1)]))
+        out.append(make('D_FS_PO_DR_S_Fire_p%d' % p, 1, p, 1, [D(1), FS(1, aw=[1], label='f'), PO('f'), DR('f'), S(1)], [FIRE(1)]))
+        out.append(make('FS_PO_PO_DR_D_p%d' % p, 1, p, 1, [FS(1, aw=[1], label='f'), PO('f'), PO('f'), DR('f'), D(1)], [D(1), FIRE(1)]))
+        out.append(make('FS_DR_D_p%d' % p, 1, p, 0, [FS(1, label='f'), DR('f'), D(1)], [T(1)]))
+        out.append(make('D_FSaw_S_p%d' % p, 1, p, 0, [D(1), FS(1, then='await')], [S(1)]))
+    return out
+
+
+def suspend_families(pools=(0, 1)):
+    out = []
+    for p in pools:
+        out.append(make('SU_D_RS_S_p%d' % p, 1, p, 0, [SU(1, then='await', label='s'), D(1), RS('s'), S(1)]))
+        out.append(make('D_SU_AW_D_DRS_S_p%d' % p, 1, p, 0, [D(1), SU(1, label='s'), AW('s'), D(1), DRS('s')], [S(1)]))
+    for p in (1, 2):
+        out.append(make('SU_RS_Sother_p%d' % p, 1, p, 0, [D(1), SU(1, then='await', label='s'), D(1), RS('s')], [S(1), T(1)]))
+        out.append(make('SU_FD_RS_p%d' % p, 1, p, 1, [SU(1, then='await', label='s'), FD(1, aw=[1], then='detach'), RS('s'), S(1)], [FIRE(1)]))
+    return out
+
+
+def panic_families(pools=(1, 2)):
+    out = []
+    for p in pools:
+        out.append(make('Dpanic_Db_Sb_p%d' % p, 2, p, 0, [D(1, panic=True), D(2)], [S(2)]))
+        out.append(make('Spanic_then_ops_p%d' % p, 2, p, 0, [S(1, panic=True), D(1), S(1), T(1), D(2), S(2)]))
+        out.append(make('Dpanic_S_later_p%d' % p, 2, p, 0, [D(1, panic=True), S(1), D(2), S(2), D(1)]))
+        out.append(make('FDpanic_aw_later_p%d' % p, 2, p, 1, [FD(1, aw=[1], then='await', panic=True), S(1), D(2), S(2)], [FIRE(1)]))
+        out.append(make('steal_panic_p%d' % p, 2, p, 0, [S(1)], [D(1, panic=True), S(1), S(1)], [T(1), D(2), S(2)]))
+        out.append(make('Tpanic_later_p%d' % p, 1, p, 0, [T(1, panic=True), S(1), D(1)]))
+    out.append(make('steal_panic_p0', 1, 0, 0, [S(1)], [D(1, panic=True), S(1), S(1)], [T(1)]))
+    out.append(make('capacity_p1', 3, 1, 0, [D(1, panic=True), S(1), D(2), D(3), S(2), S(3)]))
+    out.append(make('FSpanic_later_p1', 1, 1, 0, [FS(1, then='await', panic=True), S(1), D(1)]))
+    return out
+
+
+def max_families():
+    out = pool_families()
+    out.append(make('setmax_despawn_p2', 2, 2, 0, [D(1), D(2), SETMAX(1), DESPAWN(), D(1)], [S(2)], extra_pool=1))
+    out.append(make('setmax0_despawn_p1', 2, 1, 0, [D(1), S(1), SETMAX(0), DESPAWN(), D(2), S(2)]))
+    out.append(make('raise_max_p0', 2, 0, 0, [D(1), SETMAX(2), D(2), D(1)], [S(1), S(2)], extra_pool=2))
+    return out
+
+
 def for_property(prop, tier, seed=0):
     """Returns the list of scenarios a property's check explores"""
     quick = tier == 'quick'
@@ -182,8 +243,20 @@ def for_property(prop, tier, seed=0):
         fam = future_mix((1,) if quick else (1, 2)) + [make('FDaw_Fire_p0', 1, 0, 1, [FD(1, aw=[1], then='await'), FIRE(1)][:1], [FIRE(1)])]
     elif prop == 'C09':
         fam = [s for s in core_mix((0, 1) if quick else (0, 1, 2)) + future_mix((1,) if quick else (1, 2)) if any(op['k'] == 'try_sync' for op in scenlib.flatten(s).values())]
-    elif prop in ('C10', 'C17'):
+    elif prop == 'C10':
         fam = pool_families()
+    elif prop == 'C17':
+        fam = max_families()
+    elif prop == 'C05':
+        fam = drop_families((0, 1) if quick else (0, 1, 2))
+    elif prop == 'C08':
+        fam = fsync_families((0, 1) if quick else (0, 1, 2))
+    elif prop == 'C13':
+        fam = suspend_families((0, 1) if quick else (0, 1, 2))
+    elif prop == 'C14':
+        fam = core_mix((1,))[:4] + drop_families((1,)) + fsync_families((1,))[:6]
+    elif prop == 'C15':
+        fam = panic_families((1,) if quick else (1, 2, 3))
     else:
         fam = []
     # unique names
